@@ -323,7 +323,11 @@ def simulate(case, close_at, want_blocks=True):
             helpers.append(asyncio.ensure_future(later(cancel_at, first.cancel)))
         # "close has returned" = the first of the overlapping calls to return normally
         while not any(t.done() and not t.cancelled() and t.exception() is None for t in closes):
-            await asyncio.wait([t for t in closes + helpers if not t.done()], return_when=asyncio.FIRST_COMPLETED)
+            pending = [t for t in closes + helpers if not t.done()]
+            if not pending:   # every call raised: reported through close_results; carry on from here
+                obs["marks"]["no_close_returned"] = True
+                break
+            await asyncio.wait(pending, return_when=asyncio.FIRST_COMPLETED)
         obs["marks"]["close_returned"] = sim.now()
         obs["marks"]["n_events_at_return"] = len(sim.events)
         obs["marks"]["n_sends_at_return"] = len(obs["sends"])
@@ -887,9 +891,12 @@ def run(ctx):
     for name, body in C.load_corpus("C17"):
         (run_early_case if body["case"].get("early") else run_case)(res, body["case"], ctx, acc)
         res.count("corpus")
+    # the part of the quantifier that needs real threads: close() from non-loop threads, the thread-based ServiceBrowser
+    from . import c17_threads
+    c17_threads.run(res, ctx, violate_limited)
     n = C.Budget(ctx["tier"], 150, 4000).n
     if ctx["widened"]:
-        n *= 4
+        n *= 2
     for idx in range(n):
         if idx % 8 == 5:
             run_early_case(res, gen_early_case(ctx["seed"], idx), ctx, acc)
@@ -907,6 +914,10 @@ def run(ctx):
 
 def replay(body):
     case = body["case"]["case"] if "case" in body.get("case", {}) else body["case"]
+    if case.get("threads"):
+        from . import c17_threads
+        bad = c17_threads.run_one(case)
+        return {"violates": bool(bad), "findings": bad, "predicate": "C17 oracle on a real-thread scenario"}
     res = C.Result("C17")
     acc = []
     bad = (run_early_case if case.get("early") else run_case)(res, case, {"driver_ok": False}, acc)
